@@ -365,13 +365,24 @@ func lt(a, b Term) Term { return App("<", SBool, a, b) }
 // read element i of slice s (no bounds check here)
 func (u *Unit) sliceGet(env *Env, s Term, elem Sort, i Term) Term {
 	h := u.heap(env, sliceHeapName(elem), ArrS(SRef, ArrS(SInt, elem)))
-	return Select(Select(h, sBase(s)), add(sOff(s), i))
+	return Select(Select(h, sBase(s)), u.idx(s, i))
+}
+
+// position of element i of slice s in its backing array: an uninterpreted symbol (defined by an axiom) rather than
+// s_off(s)+i, so that quantifier patterns over slice elements match syntactically on i
+func (u *Unit) idx(s, i Term) Term {
+	if u.BV {
+		return add(sOff(s), i)
+	}
+	u.D.Fun("idx", SInt, SSlice, SInt)
+	u.D.Axiom("idx-def", "(forall ((s Slice) (i Int)) (! (= (idx s i) (+ (s_off s) i)) :pattern ((idx s i))))")
+	return App("idx", SInt, s, i)
 }
 
 func (u *Unit) sliceSet(env *Env, s Term, elem Sort, i Term, v Term) {
 	name := sliceHeapName(elem)
 	h := u.heap(env, name, ArrS(SRef, ArrS(SInt, elem)))
-	nh := Store(h, sBase(s), Store(Select(h, sBase(s)), add(sOff(s), i), v))
+	nh := Store(h, sBase(s), Store(Select(h, sBase(s)), u.idx(s, i), v))
 	u.setHeap(env, name, u.define(env, "h_"+name, nh))
 }
 
